@@ -42,6 +42,21 @@ let string_of_graph g =
   String.concat ";" (List.map (fun ((a, b), w) -> Printf.sprintf "%d:%d:%s" (int_of_nat a) (int_of_nat b) (string_of_q w)) g)
 let string_of_matching m =
   if m = [] then "-" else String.concat ";" (List.map (fun (a, b) -> Printf.sprintf "%d:%d" (int_of_nat a) (int_of_nat b)) m)
+(* histories on one SimpleGraph object (Decoders/MatchingHist.v): ops separated by ';'
+   A:a:b:w add_edge | S:a:b:w g[(a,b)]=w | D:a:b del/pop | P popitem | U:a:b:w,a:b:w,.. update / |= | F:a:b:w setdefault | C clear *)
+let hop_of_string s =
+  let n = String.length s in
+  if n = 0 then failwith "badhop" else
+  let rest = if n >= 2 then String.sub s 2 (n - 2) else "" in
+  match s.[0] with
+  | 'A' -> let ((a, b), w) = entry_of_string rest in HAdd (a, b, w)
+  | 'S' -> let (k, w) = entry_of_string rest in HSet (k, w)
+  | 'D' -> HDel (pair_of_string rest)
+  | 'P' -> HPopitem
+  | 'U' -> HUpdate (List.map entry_of_string (split ',' rest))
+  | 'F' -> let (k, w) = entry_of_string rest in HSetdefault (k, w)
+  | 'C' -> HClear
+  | _ -> failwith "badhop"
 let b s = if s then "1" else "0"
 let dispatch = function
   | ["build"; ops] ->
@@ -63,6 +78,9 @@ let dispatch = function
       Printf.sprintf "npm=%d perfect=%s min=%s w=%s minw=%s counter=%s distinctw=%s" npm (b perf) (b mn) (string_of_q wm)
         (match min_pm_weight g with None -> "_" | Some w -> string_of_q w)
         (match better with [] -> "_" | m' :: _ -> string_of_matching m') (b distinct_w)
+  | ["hist"; hs] ->   (* contents of the object after every operation of the history *)
+      let (_, acc) = List.fold_left (fun (g, acc) o -> let g' = step g o in (g', string_of_graph g' :: acc)) ([], []) (List.map hop_of_string (split ';' hs)) in
+      if acc = [] then "-" else String.concat "|" (List.rev acc)
   | ["npms"; gs] -> string_of_int (List.length (all_pms (graph_of_string gs)))
   | _ -> "ERR BadRequest"
 let () = main dispatch
